@@ -62,6 +62,10 @@ func funcs(files map[string]*ast.File) map[string]*ast.FuncDecl {
 	for _, f := range files {
 		for _, d := range f.Decls {
 			if fd, ok := d.(*ast.FuncDecl); ok {
+				// a package-level function wins over a method of the same name
+				if old, exists := res[fd.Name.Name]; exists && old.Recv == nil && fd.Recv != nil {
+					continue
+				}
 				res[fd.Name.Name] = fd
 			}
 		}
